@@ -166,6 +166,11 @@ def _cases(draw, tier):
     if ghi - glo + 1 < size + 2:
         return {'skip': 'address space too small', 'isa': cfg}
     address = draw(st.one_of(st.integers(glo, ghi - size), st.sampled_from([glo, ghi - size, (glo + ghi) // 2])))
+    if kind == 'address' and alt['argument'].get('slice_lsb') and alt['argument'].get('memory_zone') in isa.zones and draw(st.booleans()):
+        # the instruction sits in the page that holds an edge of the operand's zone: a value just outside the zone can
+        # still share its high-order bits with the instruction's address
+        zlo, zhi = isa.zones[alt['argument']['memory_zone']]
+        address = min(max(glo, draw(st.sampled_from([zlo, zhi])) + draw(st.integers(-6, 6))), ghi - size)
     cands = boundary_candidates(alt, isa, address, size)
     mode = draw(st.integers(0, 9))
     if cands and mode < 8:
